@@ -11,10 +11,14 @@ import AfkakProofs.Producer.AfterStop
 import AfkakProofs.Producer.WireCompose
 import AfkakProofs.Producer.WireBytes
 import AfkakProofs.Producer.WireBytesEmitted
+import AfkakProofs.Producer.WireBytesRequest
+import AfkakProofs.Producer.WireBytesGzipRequest
 import AfkakProofs.Producer.Compose2
 import AfkakProofs.Producer.Compose3
 import AfkakProofs.Producer.Compose4
 import AfkakProofs.Producer.Args
+import AfkakProofs.Producer.NeverDropped
+import AfkakProofs.Producer.EncodeFail
 /-!
 # C01 — Producer acknowledgements are truthful and fire exactly once
 Property theorems only.  Model: `Afkak/Producer.lean` (the Producer against the client interface);
@@ -120,6 +124,41 @@ theorem C01_never_dropped (cfg : Cfg) (st : St) (e : Ev) (s : Sid) (hs : s ∈ s
   split
   · exact List.mem_append_left _ hs
   · exact hs
+
+/-- … trace level, for EVERY event list (audit round 2, C01-6: no other monitor ties leaving `_outstanding` to
+    firing): every send that was outstanding before a step is still outstanding after it or FIRED in it.  The monitor
+    `neverDropped` (Afkak/Monitor/C01Dropped.lean) is evaluated on every flat trace of the real Producer. -/
+theorem C01_never_dropped_trace (cfg : Cfg) (evs : List Ev) : neverDropped cfg (traceOf cfg evs) = true :=
+  neverDropped_model cfg evs
+
+/-- THE MESSAGE SETS CANNOT BE BUILT (finding F32, fixed 3a8b78c; audit round 2 C01-1) - handler level, ANY state
+    and look-up results: `sendRequestsE k` is `_send_requests` with `create_message_set` raising `k` (codec=CODEC_SNAPPY
+    without the snappy library, which the constructor accepts; any encoder that raises).  The batch resolves
+    (`_complete_batch_send` runs); NOTHING is transmitted; and if `_send_requests` would have made the produce request
+    `ps` had nothing raised (`sendRequests`, the same code), then the look-up failures are reported exactly as before,
+    every send of `ps` still outstanding after them FIRES `err k`, and (reachable states: `_outstanding` has no
+    duplicates) no send of `ps` is outstanding afterwards - "in every other outcome it fails with an exception".
+    Before the fix the exception was eaten and those sends never fired.  Not wired into `step` (the model has no
+    "encoder raises" input): on the code the encode-failure stage of the harness evaluates the monitors on scenarios
+    with such a codec. -/
+theorem C01_encode_failure_fires_all (k : ErrKind) (st : St) (ls : List Lookup) :
+    (sendRequestsE k st ls).2.2 = true ∧
+    (∀ rid ps, Ob.produce rid ps ∉ (sendRequestsE k st ls).2.1) ∧
+    (∀ rid ps, Ob.produce rid ps ∈ (sendRequests st ls).2.1 →
+      ps = (procResults ls st.outstanding []).2.1 ∧
+      (∀ o, o ∈ (procResults ls st.outstanding []).2.2 → o ∈ (sendRequestsE k st ls).2.1) ∧
+      (∀ s ∈ payloadSids ps, s ∈ (procResults ls st.outstanding []).1 →
+        Ob.fire s (.err k) ∈ (sendRequestsE k st ls).2.1) ∧
+      (st.outstanding.Nodup → ∀ s ∈ payloadSids ps, s ∉ (sendRequestsE k st ls).1.outstanding)) :=
+  sendRequestsE_spec k st ls
+
+/-! Non-vacuity: two sends, both with a partition: the request would carry both; with the encoder raising both fire. -/
+example : (sendRequestsE (.other 5) { outstanding := [0, 1] }
+    [⟨⟨0, 0, none, [some 3]⟩, .done (.part 0)⟩, ⟨⟨1, 0, none, [some 2]⟩, .done (.part 1)⟩]).2.1 =
+    [.fire 0 (.err (.other 5)), .fire 1 (.err (.other 5))] := by decide +kernel
+example : (sendRequests { outstanding := [0, 1] }
+    [⟨⟨0, 0, none, [some 3]⟩, .done (.part 0)⟩, ⟨⟨1, 0, none, [some 2]⟩, .done (.part 1)⟩]).2.1.any
+      (fun o => match o with | .produce _ ps => payloadSids ps == [0, 1] | _ => false) = true := by decide +kernel
 
 /-- Fires — trace level, for EVERY event list: whenever no batch is in flight (`_batch_send_d is None`)
     everything still in `_outstanding` is still queued, i.e. every send that was dispatched has fired -
@@ -324,6 +363,61 @@ theorem C01_payload_bytes_decode_gzip_emitted (ext : Afkak.Wire.Ext) (body : Nat
             (Afkak.Wire.Spec.messageSet ext.crc).dec bytes = some [WireBytes.wrapperEntry ext.nowMs magic gz]) :=
   WireBytes.payload_bytes_decode_gzip_emitted ext body magic hm rs p hp ms h hinv
 
+/-- … and the WHOLE PRODUCE REQUEST without any size condition (`AfkakProofs/Producer/WireBytesRequest.lean`: a
+    produce request `encode_produce_request` returns a frame for is grammar-valid - `produce_valid_of_encode`, the
+    converse of the wire package's `produce_total`).  For the payload list of an `Ob.produce`, topic names `tn`, no
+    compression, any message format, any request version the encoder implements (`hv`: `ver ≥ 0`): WHENEVER
+    `encode_produce_request` RETURNS a frame (it raises - and nothing is sent - when a (topic, partition) is named
+    twice, a topic name is not ASCII, or a size, the clock, acks, timeout, the correlation id does not fit its field),
+    that frame PARSES under the grammar's request decoder to the header (api key 0, version `v`, the correlation and
+    client id), `acks`, `timeout` and the payloads nested by topic, each partition with exactly one entry per message
+    of its payload, in order, key and value bytes kept, checksum verified; `q` is under topic `t` in what the broker
+    reads IFF `(t, q)` is the `(topic name, (partition, entries))` of one of the payloads. -/
+theorem C01_request_bytes_decode_emitted (ext : Afkak.Wire.Ext) (body : Nat → List UInt8) (magic : Int)
+    (tn : Topic → List UInt8) (payloads : List Payload) (cid : List UInt8) (corr acks timeout ver v : Int)
+    (hv : Afkak.Monitor.C04.implementedVersion ver = some v) (frame : List UInt8)
+    (h : Afkak.Wire.encodeProduceRequest ext cid corr (payloads.map (WireBytes.wireReq ext body magic tn)) acks timeout ver
+      = .ok frame) :
+    ∃ nested,
+      (Afkak.Wire.Spec.request (Afkak.Wire.Spec.produceRequest ext.crc)).dec frame
+          = some (Afkak.Monitor.C04.hdr 0 v corr cid, acks, timeout, nested)
+      ∧ nested = Afkak.Monitor.C04.regroup (payloads.map (WireBytes.brokerPart ext.nowMs body magic tn))
+      ∧ (∀ t q, (∃ e ∈ nested, e.1 = t ∧ q ∈ e.2) ↔
+          ∃ p ∈ payloads, t = tn p.tp.topic ∧ q = (p.tp.part, p.msgs.map (WireBytes.brokerEntry ext.nowMs body magic))) :=
+  WireBytes.request_bytes_decode_emitted ext body magic tn payloads cid corr acks timeout ver v hv frame h
+
+/-- … and the whole produce request WITH GZIP (`AfkakProofs/Producer/WireBytesGzipRequest.lean`).  For the payload
+    list of an `Ob.produce`, each payload `p` made of the sends `sends p` (`hp`: `C01_payload_integrity`) and given
+    the message set `ms p` that `create_message_set(sends, CODEC_GZIP, magic)` RETURNED for it (`hms`), a
+    decompressor that undoes the compressor (`hinv`; both are externals of the model), any request version the
+    encoder implements: WHENEVER `encode_produce_request` returns a frame, the frame parses under the grammar's
+    request decoder to the header, `acks`, `timeout` and the payloads nested by topic, each partition holding exactly
+    ONE wrapper entry (offset 0, format `magic`, gzip codec in the attributes, null key, checksum verified) whose value
+    (`gzOf ms p`) DECOMPRESSES to bytes that parse under the grammar's message-set decoder to exactly one entry per
+    message of the payload, in order, key and value bytes kept.  No size condition. -/
+theorem C01_request_bytes_decode_gzip_emitted (ext : Afkak.Wire.Ext) (body : Nat → List UInt8) (magic : Int)
+    (hm : magic = 0 ∨ magic = 1) (tn : Topic → List UInt8) (payloads : List Payload) (sends : Payload → List Req)
+    (hp : ∀ p ∈ payloads, p.msgs = (sends p).flatMap (·.wire)) (ms : Payload → List Afkak.Wire.Message)
+    (hms : ∀ p ∈ payloads,
+      Afkak.Wire.createMessageSet ext ((sends p).map (WireCompose.sendArg body)) Afkak.Consts.codecGzip magic = .ok (ms p))
+    (hinv : ∀ b z, ext.gzip b = .ok z → ext.gunzip (some z) = .ok b)
+    (cid : List UInt8) (corr acks timeout ver v : Int) (hv : Afkak.Monitor.C04.implementedVersion ver = some v)
+    (frame : List UInt8)
+    (h : Afkak.Wire.encodeProduceRequest ext cid corr (payloads.map (WireBytes.wireReqWith tn ms)) acks timeout ver
+      = .ok frame) :
+    ∃ nested,
+      (Afkak.Wire.Spec.request (Afkak.Wire.Spec.produceRequest ext.crc)).dec frame
+          = some (Afkak.Monitor.C04.hdr 0 v corr cid, acks, timeout, nested)
+      ∧ nested = Afkak.Monitor.C04.regroup (payloads.map
+          (fun p => (tn p.tp.topic, (p.tp.part, [WireBytes.wrapperEntry ext.nowMs magic (WireBytes.gzOf ms p)]))))
+      ∧ (∀ t q, (∃ e ∈ nested, e.1 = t ∧ q ∈ e.2) ↔
+          ∃ p ∈ payloads, t = tn p.tp.topic
+            ∧ q = (p.tp.part, [WireBytes.wrapperEntry ext.nowMs magic (WireBytes.gzOf ms p)]))
+      ∧ (∀ p ∈ payloads, ∃ inner, ext.gunzip (some (WireBytes.gzOf ms p)) = .ok inner
+          ∧ (Afkak.Wire.Spec.messageSet ext.crc).dec inner = some (p.msgs.map (WireBytes.brokerEntry ext.nowMs body magic))) :=
+  WireBytes.request_bytes_decode_gzip_emitted ext body magic hm tn payloads sends hp ms hms hinv cid corr acks timeout
+    ver v hv frame h
+
 /-! Non-vacuity of the theorems above: a concrete payload (two sends, a null message, an empty value, a null
 key), concrete externals and a two-payload request meet every hypothesis (`AfkakProofs/Producer/WireBytes.lean`,
 "non-vacuity", checked by `decide`); here the theorems are applied to them. -/
@@ -338,6 +432,15 @@ example : ∃ bytes, Afkak.Wire.encodeMessageSet WireBytes.exExt
     (WireBytes.exP.msgs.map (WireCompose.wireMsg WireBytes.exExt WireBytes.exBody 1)) none 1 = .ok bytes := ⟨_, rfl⟩
 example : ∃ ms bytes, Afkak.Wire.createMessageSet WireBytes.exExt (WireBytes.exRs.map (WireCompose.sendArg WireBytes.exBody))
     Afkak.Consts.codecGzip 1 = .ok ms ∧ Afkak.Wire.encodeMessageSet WireBytes.exExt ms none 1 = .ok bytes := ⟨_, _, rfl, rfl⟩
+example : ∃ frame, Afkak.Wire.encodeProduceRequest WireBytes.exExt [99] 5
+    ([WireBytes.exP, WireBytes.exP2].map (WireBytes.wireReq WireBytes.exExt WireBytes.exBody 1 WireBytes.exTn)) (-1) 1000 8
+    = .ok frame := ⟨_, rfl⟩
+/-- … and for the gzip request: the hypotheses `hp`, `hms` hold of `WireBytes.exSends`, `WireBytes.exMs` and the encoder
+    returns a frame (the three `example`s at the foot of `AfkakProofs/Producer/WireBytesGzipRequest.lean`) -/
+example := C01_request_bytes_decode_gzip_emitted WireBytes.exExt WireBytes.exBody 1 (Or.inr rfl) WireBytes.exTn
+  [WireBytes.exP, WireBytes.exP2] WireBytes.exSends (by decide) WireBytes.exMs
+  (by intro p hp; simp only [List.mem_cons, List.not_mem_nil, or_false] at hp; rcases hp with rfl | rfl <;> rfl)
+  (by intro b z h; cases h; rfl) [99] 5 (-1) 1000 8 2 (by decide)
 
 /-! Non-vacuity: a run in which Deferreds do fire (an acknowledged send, a cancelled one). -/
 def exCfg : Cfg := Cfg.ofArgs 1 3 (1/4) false 1 1 none false
@@ -552,6 +655,8 @@ C01_none_only_if_handed_over
 C01_empty_answer
 C01_otherwise_fails
 C01_never_dropped
+C01_never_dropped_trace
+C01_encode_failure_fires_all
 C01_fires_exactly_once
 C01_fires_exactly_once_run
 C01_run_fires_nodup
@@ -564,6 +669,8 @@ C01_payload_bytes_decode_gzip
 C01_request_bytes_decode
 C01_payload_bytes_decode_emitted
 C01_payload_bytes_decode_gzip_emitted
+C01_request_bytes_decode_emitted
+C01_request_bytes_decode_gzip_emitted
 C01_batch_resolves_within
 C01_composed_is_producer_run
 C01_composed_success_only_if_leader_acked
